@@ -5,6 +5,7 @@ import (
 	"go/token"
 	"go/types"
 	"math"
+	"math/rand"
 	"strconv"
 	"strings"
 
@@ -512,7 +513,15 @@ func (in *Interp) verifrt(name string, args []Value, site ssa.Instruction) (Valu
 	case "Generators":
 		seed := args[0].(int64)
 		st := &randStream{seed: seed}
+		var real *rand.Rand
 		return &Native{Name: "generator", Fn: func(in *Interp, _ []Value) Value {
+			if in.drawMode < 0 {
+				// the real PRNG of the toolchain (translator validation on the repository's example requests)
+				if real == nil {
+					real = rand.New(rand.NewSource(seed))
+				}
+				return real.Float64()
+			}
 			if in.drawMode > 0 {
 				k := st.k
 				st.k++
